@@ -43,8 +43,10 @@ claimed = {
          "bounds as stated; IPv6/percent-escaped hosts and Client/HostClient wrappers outside", "§0 C20"),
  "C23": ("the real FS handler over a recording in-memory fs.FS: for every request target of '/' + ≤2/≤3 arbitrary bytes (through the real URI parser), Root ∈ {r, r/s, empty}, compression on/off and each built-in rewriter with counts 0..2 (arbitrary host bytes for the virtual-host rewriter), every name passed to Open is the root or lexically inside it, NUL paths open nothing (400), and '..' after rewriting opens nothing",
          "fs.FS mode only; os-level opens, symlinks and Windows paths outside; one known finding excluded (<root>.fasthttp.gz looked up next to the root)", "§0 C23"),
- "C24": ("ParseByteRange clause: for every range spec of ≤5/≤7 arbitrary bytes and every non-negative content length an accepted range satisfies 0 ≤ start ≤ end < length; the three RFC 9110 forms with ≤3/≤5 symbolic digits are accepted iff satisfiable with the right values",
-         "only the ParseByteRange clause; FS 206/416/304/HEAD behaviour on files outside", "§0 C24"),
+ "C24": ("ParseByteRange clause: for every range spec of ≤5/≤7 arbitrary bytes and every non-negative content length an accepted range satisfies 0 ≤ start ≤ end < length; the three RFC 9110 forms with ≤3/≤5 symbolic digits are accepted iff satisfiable with the right values; and the real FS handler behind the real serve loop over an in-memory fs.FS: a file of ≤2/≤3 arbitrary bytes, a Range spec of ≤3/≤4 arbitrary bytes, If-Modified-Since before/at/after the file's second, GET and HEAD: 206 with exactly the slice and a matching Content-Range, 416 when unsatisfiable, 304 when not newer to the second, else 200 with the full content; HEAD = GET's status and headers without a body",
+         "fs.FS mode; compressed variants and OS files outside", "§0 C24"),
+ "C25": ("the real FS handler, cache manager and cleaner goroutine on the engine's scheduler over a counting in-memory fs.FS: sequential requests with slow file reads and gaps longer than the cache lifetime, so that eviction happens between requests and during a response; after CleanStop every file handle the handler opened has been closed exactly once and none was used after Close; served bodies equal the file bytes",
+         "≤2 sequential requests; concurrent readers of one file outside", "§0 C25"),
  "C26": ("URI.SetPathBytes→Path equals an independent RFC 3986 remove_dot_segments reference for every byte string of length ≤5 (quick) / ≤7 (thorough), incl. percent-escapes",
          "lengths as stated; Windows separator handling outside", "§0 C26"),
  "C27": ("URI round trip and agreement with net/url: for 12 prefixes (scheme spellings, userinfo, IPv6 literal, port, inside path/query/fragment/escape) followed by ≤2/≤3 arbitrary bytes, every URI fasthttp accepts re-parses from FullURI() to the same scheme, host, path, query args (identical query string when QueryArgs was not used) and fragment, RequestURI() parsed against the same host gives the same path and query args, and for http/https URIs that the interpreted net/url.Parse also accepts the host equals net/url's host lower-cased and the raw queries are equal",
@@ -73,7 +75,6 @@ na = {
  "C18": "not built: the inductive step over HostClient's pool operations needs a representation invariant for conns/connsWait/wantConn that was not written in this build",
  "C21": "not built: requires the client dial path with a stubbed TLS stack under the interpreter (see C04)",
  "C22": "codec internals (compress/flate, brotli, zstd) are loops over whole buffers that a bit-blasting back end cannot decide, and the abstraction of codecs as uninterpreted functions plus the stackless queue oracle was not built",
- "C25": "not built: the cache-manager inductive step with ghost reader/release counts was not written in this build",
  "C35": "not built: multipart parsing (mime/multipart) and temp-file interception were not brought up under the interpreter",
  "C36": "the oracle is net/http's own server; differential behaviour of two full HTTP servers is outside bounded symbolic execution of this code",
  "C37": "data races are not representable in a sequentially consistent interpreter; a solver query over SSA cannot decide happens-before",
